@@ -322,12 +322,41 @@ def event_tables(tree, site, T):
             f"(event_threshold : option xv) (op_fn : option cmpop) : xv * xv :=\n" + "".join(lets) + "  (fcst_events, obs_events).\n")
 
 
+def operator_init(tree, site, T):
+    """ThresholdEventOperator.__init__: the two defaults must be stored exactly as given; the signature defaults are read off"""
+    fn = T.find_function(tree, "ThresholdEventOperator.__init__")
+    kw = {a.arg: d for a, d in zip(fn.args.kwonlyargs, fn.args.kw_defaults)}
+    for n in ("default_event_threshold", "default_op_fn"):
+        if n not in kw or kw[n] is None:
+            raise T.Unsupported(f"{n} is not a keyword-only argument with a default")
+    stored = {}
+    for st in fn.body:
+        if T.is_docstring(st):
+            continue
+        if not (isinstance(st, ast.Assign) and len(st.targets) == 1 and T.is_attr(st.targets[0], "self")):
+            raise T.Unsupported("statement in __init__: " + T.src(st)[:60])
+        stored[st.targets[0].attr] = st.value
+    for n in ("default_event_threshold", "default_op_fn"):
+        if n not in stored or not (isinstance(stored[n], ast.Name) and stored[n].id == n):
+            raise T.Unsupported(f"self.{n} is not the argument itself: " + (T.src(stored[n]) if n in stored else "missing"))
+    dt = T.Expr({}).num(kw["default_event_threshold"])
+    dop = op_const(kw["default_op_fn"], T)
+    return (PRELUDE +
+            "(* the constructor argument if given, the signature default otherwise; stored unchanged *)\n"
+            f"Definition gen_init_event_threshold (default_event_threshold : option xv) : xv :=\n"
+            f"  match default_event_threshold with Some v => v | None => {dt} end.\n"
+            f"Definition gen_init_op_fn (default_op_fn : option cmpop) : cmpop :=\n"
+            f"  match default_op_fn with Some v => v | None => {dop} end.\n")
+
+
 SITES = [
     dict(id="C08.modes", group="C08_discretise", kind="custom", fn=mode_tables, file="processing/discretise.py", func="INEQUALITY_MODES"),
     dict(id="C08.discretise", group="C08_discretise", kind="custom", fn=comparative_discretise, file="processing/discretise.py",
          func="comparative_discretise", name="gen_comparative_discretise"),
     dict(id="C08.maps", group="C08_contingency", kind="custom", fn=lambda tree, site, T: PRELUDE + contingency_maps(tree, site, T),
          file="categorical/contingency_impl.py", func="BinaryContingencyManager.__init__", name="gen_contingency_maps"),
+    dict(id="C08.init", group="C08_contingency", kind="custom", fn=operator_init, file="categorical/contingency_impl.py",
+         func="ThresholdEventOperator.__init__", name="gen_init_event_threshold"),
     dict(id="C08.event_tables", group="C08_contingency", kind="custom", fn=event_tables, file="categorical/contingency_impl.py",
          func="ThresholdEventOperator.make_event_tables", method="make_event_tables", name="gen_make_event_tables"),
     dict(id="C08.event_manager", group="C08_contingency", kind="custom", fn=event_tables, file="categorical/contingency_impl.py",
